@@ -135,7 +135,7 @@ def execute(plan: dict, replay: Optional[dict] = None, keep_graph: bool = False,
     spec = plan["spec"]
     t0 = _rt.time()
     K.begin_run(fair_k=plan.get("fair_k", 64), line_rate=plan.get("line_rate", 0.0), line_seed=plan["seed"] ^ 0x5151, fault_seed=plan["seed"] ^ 0xFA17,
-                replay=replay, hot_rate=plan.get("hot_rate", 0.0))
+                replay=replay, hot_rate=plan.get("hot_rate", 0.0), spin_guard=bool(plan.get("spin_guard")))
     comp_rng = random.Random(plan["seed"] ^ 0xC0)
     try:
         try:
